@@ -247,7 +247,7 @@ def render_n(e, ords=None):
         if x[0] == "variant":
             return ("variant", norm(x[1]), x[2])
         if x[0] in ("index", "discr"):
-            return (x[0], norm(x[1]))
+            return (x[0], norm(x[1])) + tuple(x[2:])
         if x[0] == "call":
             nm = x[1]
             if ords and nm in ords and len(x) > 3 and x[3] in ords[nm]:
@@ -272,6 +272,40 @@ def value_rows(body, sym, facts, local, depth=2, fmt=None):
     rows = []
     defs = body.defs_of(local)
     live = body.live_blocks()
+    if getattr(body, "changed", False) and depth == 2:
+        # a function that differs from the reference tree (helpers inlined, combinators rewritten, paths specialised): resolve
+        # the locals the value depends on by the definitions that reach each row, one row per combination
+        from analysis.sym import split_rows
+        from analysis.guards import infeasible
+        out = []
+        okall = True
+        for i in sorted(live):
+            blk = body.blocks[i]
+            pts = [(j, st["rv"]) for j, st in enumerate(blk["stmts"]) if st["k"] == "assign" and not st["place"]["p"] and st["place"]["l"] == local]
+            t = blk["term"]
+            if t["k"] == "call" and not t["dest"]["p"] and t["dest"]["l"] == local:
+                out.append((sorted(set(_gtexts(facts_at(body, sym, facts, i), fmt, ords))), ("call", t["callee"]["path"], tuple(sym.at(i).op(a) for a in t["args"]), i)))
+            for j, rv in pts:
+                alts = split_rows(sym, i, j, rv)
+                if alts is None:
+                    okall = False
+                    break
+                for ch, v in alts:
+                    fs = list(facts_at(body, sym, facts, i))
+                    have = {f["text"] for f in fs}
+                    for pt in ch.values():
+                        if pt[0] >= 0:
+                            for f in facts_at(body, sym, facts, pt[0]):
+                                if f["text"] not in have:
+                                    have.add(f["text"])
+                                    fs.append(f)
+                    if infeasible(fs):
+                        continue
+                    out.append((sorted(set(_gtexts(fs, fmt, ords))), v))
+            if not okall:
+                break
+        if okall:
+            return [(g, fmt(v) if not isinstance(v, str) else v) for g, v in out]
     for d in defs:
         if d[0] == "arg":
             rows.append(([], ("arg", local, None), None))
